@@ -7,6 +7,14 @@ REPO = os.environ.get('VP_REPO', '/repo')
 HARNESS = {'src/parsing/buffers.rs': 'native/buffers_checks.rs', 'src/parsing/chunked_reader.rs': 'native/chunked_checks.rs', 'src/parsing/body_reader.rs': 'native/body_checks.rs', 'src/request/proxy.rs': 'native/proxy_checks.rs', 'src/parsing/compressed_reader.rs': 'native/compressed_checks.rs', 'src/request/mod.rs': 'native/request_checks.rs', 'src/multipart.rs': 'native/multipart_checks.rs', 'src/parsing/response_reader.rs': 'native/text_checks.rs'}
 
 
+def home_of(test):
+    """(repo module, harness file) that holds a native test"""
+    for rel, hrel in HARNESS.items():
+        if re.search(r'fn %s\b' % re.escape(test), open(os.path.join(VERIF, hrel)).read()):
+            return rel, hrel
+    return '?', '?'
+
+
 def run(prop, tier, cfg):
     t0 = time.time()
     scratch = tempfile.mkdtemp(prefix='vp_native_')
@@ -20,7 +28,8 @@ def run(prop, tier, cfg):
             open(os.path.join(scratch, rel), 'a').write('\n#[cfg(test)]\n#[path = "%s"]\nmod verif_native;\n' % hp)
         env = dict(os.environ, CARGO_NET_OFFLINE='true', CARGO_TARGET_DIR=os.path.join(VERIF if os.path.isdir(os.path.join(VERIF, 'build')) else '/verif', 'build', 'native_target'))
         names = [t['name'] for t in cfg['tests'] if not (t.get('tier', 'quick') == 'thorough' and tier != 'thorough')]
-        cmd = ['cargo', 'test', '--offline', '--release', '--features', 'charsets,multipart-form,json,form', '--lib', 'vp_native_', '--', '--nocapture', '--test-threads', '8']
+        # only the requested tests run (test-name filters after `--`)
+        cmd = ['cargo', 'test', '--offline', '--release', '--features', 'charsets,multipart-form,json,form', '--lib', '--'] + names + ['--nocapture', '--test-threads', '8']
         try:
             p = subprocess.run(cmd, cwd=scratch, env=env, capture_output=True, text=True, timeout=cfg.get('timeout', 1500))
         except subprocess.TimeoutExpired:
@@ -50,7 +59,7 @@ def run(prop, tier, cfg):
                         'obligation': 'native/%s' % t['name'], 'unit': 'native', 'fn': t['name'], 'clause': t['name'], 'kind': 'native-assertion',
                         'props': [prop], 'at_gen_line': None, 'at_src': None, 'at_text': (msg.split('\n')[-1] if msg else '')[:400],
                         'message': 'native bounded check failed: ' + msg.replace('\n', ' ')[:400], 'rendered': msg,
-                        'witness': {'test': t['name'], 'panic': msg, 'how': 'append native/buffers_checks.rs as a #[cfg(test)] child module of src/parsing/buffers.rs and run cargo test ' + t['name']}})
+                        'witness': {'test': t['name'], 'panic': msg, 'how': 'python3 vp/replay.py <this file>  (= append %s as a #[cfg(test)] child module of %s in a copy of the tree and run: cargo test --release --features charsets,multipart-form,json,form --lib -- %s --nocapture)' % (home_of(t['name'])[1], home_of(t['name'])[0], t['name'])}})
             else:
                 out['undecided'].append('native check %s did not run' % t['name'])
             out['summary']['harnesses'].append(rec)
